@@ -117,8 +117,12 @@ def run(F, S, R, tier):
                 R.bad("order/verify-before-store/err-arm", "a block failing non-contextual verification can still be stored", [ap.where(sorted(reach & ins)[0])])
             else:
                 R.ok("order/verify-before-store/err-arm", "the Err arm of non-contextual verification never reaches insert_block", [ap.where(arms[0][0])])
+            # F25 (fixed): the mark is for the HASH and is only right when the failing body is the committed one and the hash is not verified already
+            # (C01/order/invalid-needs-commitment decides that guard); under that guard the failure is marked, and it is reported on every path
             K.mustcall(R, "mustcall/noncontextual-fail", ap, [r"Shared::insert_block_status$", r"LonelyBlock::execute_callback$"], S, start=arms[0][1]["Err"], allow_err_exits=False,
-                       what="non-contextual failure: marked invalid and reported")
+                       assume=[(r"ChainService::failure_is_about_the_hash$", True)], what="non-contextual failure of the committed body: marked invalid and reported")
+            K.mustcall(R, "mustcall/noncontextual-fail/always-reported", ap, [r"LonelyBlock::execute_callback$"], S, start=arms[0][1]["Err"], allow_err_exits=False,
+                       what="every non-contextual failure is reported to the submitter")
         # genesis-number blocks never reach storage
         K.cmp_table(R, "cmp/genesis-number", ap, [r"call:.*BlockView::number$"], [r"lit:1$"], {"<": "STOP", "=": "GO", ">": "GO"},
                     K.classify_reach([r"ChainService::insert_block$"], "GO", "STOP"), what="number < 1 is never stored")
